@@ -95,6 +95,16 @@ impl Scenario for Thresh {
                 p.steps.push(Step::new("large", &[x.next() as i64 & 0xffff]));
                 return p;
             }
+            "extremes" => {
+                // the largest committees with every threshold 2..=40: the subsets drawn by `large` include exactly t shares
+                // with one identifier at one end of 1..=n and t-1 crowded at the other (products of identifier
+                // differences are largest there: where fixed-width Lagrange arithmetic overflows first)
+                p.set("g", (index % 2) as i64);
+                p.set("t", 2 + ((index / 2) % 39) as i64);
+                p.set("n", if (index / 78) % 2 == 0 { 255 } else { 254 });
+                p.steps.push(Step::new("large", &[x.next() as i64 & 0xffff]));
+                return p;
+            }
             "params" => {
                 p.steps.push(Step::new("params", &[]));
                 return p;
